@@ -356,8 +356,8 @@ pub fn generate(seed: u64, grammars: &[Grammar]) -> Scenario {
                 let g = &grammars[gi];
                 let mut best = build_text(&mut rng, g);
                 let mut big = false;
-                if rng.chance(1, 40) {
-                    // a very large input (one successful parse of it is the "unusual earlier call" of many optimisations)
+                if n_ops < 200 && rng.chance(1, 40) {
+                    // a very large input (never inside the very long histories: cost) (one successful parse of it is the "unusual earlier call" of many optimisations)
                     if let Some(b) = build_big_text(&mut rng, g) {
                         best = b;
                         big = true;
